@@ -437,7 +437,8 @@ def resolve_diff_args(args):
         # Three or more
         if not is_gitref(base):
             paths = [base, remote] + paths
-            base = remote = None
+            # (a base of None would mean the working tree further down)
+            base, remote = 'HEAD', None
         elif is_gitref(base) and not is_gitref(remote):
             paths = [remote] + paths
             remote = None
